@@ -341,7 +341,7 @@ func init() {
 		Assume:    []string{"string keys, int values; a zero value is stored under a present key; Merge and Extract again over pointer, interface, float (signed zeros) and struct keys, where == and structural equality differ"},
 		Budget:    func(string) time.Duration { return 4 * time.Minute },
 		Units: func(string) []engine.Unit {
-			return []engine.Unit{{Name: "concatenate", Run: concatenate}, {Name: "merge", Run: merge}, {Name: "extract", Run: extract}, {Name: "key-types", Run: keyTypeUnit}, {Name: "results-as-operands-and-repeated-calls", Run: again}, {Name: "valid-calls-after-a-failed-call", Run: afterFail}}
+			return []engine.Unit{{Name: "concatenate", Run: concatenate}, {Name: "merge", Run: merge}, {Name: "extract", Run: extract}, {Name: "key-types", Run: keyTypeUnit}, {Name: "results-as-operands-and-repeated-calls", Run: again}, {Name: "valid-calls-after-a-failed-call", Run: afterFail}, {Name: "whose-value-it-is", Run: valueIdentity}}
 		},
 	})
 }
